@@ -647,7 +647,7 @@ func main() {
 		Assumptions: []string{"the only state shared between concurrent evaluations of one function are its folded constants (lists, maps, closures) and the generator; value-stack slots are private per Eval and are race-checked as in C06",
 			"sequentially consistent interleavings at field granularity; weak-memory effects of a racy program are out of reach, which is why the race itself is the reported violation",
 			"value.New() (which rewrites the package-level type ids) is not run concurrently"},
-		QuickBudget: 60e9, ThoroughBudget: 45 * 60e9,
+		QuickBudget: 90e9, ThoroughBudget: 45 * 60e9,
 		Workers: 1, CoopWorkers: 13, RaceWorkers: 2,
 		Run:              run,
 		Replay:           replay,
